@@ -235,6 +235,7 @@ class LiteralProvider(LoaderProvider, DumperProvider):
         return mediator.cached_call(
             self._make_loader,
             cases=norm.args,
+            case_types=tuple(type(arg) for arg in norm.args),  # 0 == False and 1 == True, values alone are ambiguous
             bytes_cases=bytes_cases,
             strict_coercion=strict_coercion,
             enum_loaders=enum_loaders,
@@ -246,6 +247,7 @@ class LiteralProvider(LoaderProvider, DumperProvider):
         self,
         *,
         cases: Sequence[Any],
+        case_types: Sequence[type],
         strict_coercion: bool,
         enum_loaders: Sequence[Loader],
         allowed_values_repr: Collection[str],
@@ -254,7 +256,7 @@ class LiteralProvider(LoaderProvider, DumperProvider):
     ) -> Loader:
         if strict_coercion and any(isinstance(arg, bool) or _is_exact_zero_or_one(arg) for arg in cases):
             allowed_values_with_types = self._get_allowed_values_collection(
-                [(type(el), el) for el in cases],
+                list(zip(case_types, cases)),
             )
 
             # since True == 1 and False == 0
